@@ -72,7 +72,8 @@ class Device:
 
 
 class ConstT:
-    """A small concrete constant tensor (index lists for index_select)."""
+    """A small concrete constant tensor (index vectors, index lists for index_select): configuration data,
+    kept concrete; arithmetic and comparisons delegate to numpy."""
 
     def __init__(self, arr, device=None):
         self.arr = np.asarray(arr)
@@ -85,6 +86,88 @@ class ConstT:
     @property
     def shape(self):
         return TorchSize(self.arr.shape)
+
+    @property
+    def ndim(self):
+        return self.arr.ndim
+
+    def numel(self):
+        return int(self.arr.size)
+
+    def _w(self, a):
+        return ConstT(a, self.device)
+
+    @staticmethod
+    def _v(o):
+        return o.arr if isinstance(o, ConstT) else o
+
+    def _bin(name):
+        def f(self, o):
+            if isinstance(o, (DataT, Sym)):
+                return NotImplemented
+            return self._w(getattr(self.arr, name)(ConstT._v(o)))
+        return f
+    for _n in ('add', 'radd', 'sub', 'rsub', 'mul', 'rmul', 'floordiv', 'rfloordiv', 'mod', 'rmod', 'lt', 'le', 'gt',
+               'ge', 'eq', 'ne', 'and', 'or', 'truediv', 'rtruediv'):
+        locals()['__%s__' % _n] = _bin('__%s__' % _n)
+    del _n, _bin
+    __hash__ = None
+
+    def __neg__(self):
+        return self._w(-self.arr)
+
+    def __abs__(self):
+        return self._w(abs(self.arr))
+
+    def __invert__(self):
+        return self._w(~self.arr)
+
+    def __getitem__(self, i):
+        r = self.arr[ConstT._v(i) if not isinstance(i, tuple) else tuple(ConstT._v(x) for x in i)]
+        return self._w(r)
+
+    def __len__(self):
+        return len(self.arr)
+
+    def __bool__(self):
+        return bool(self.arr)
+
+    def __int__(self):
+        return int(self.arr)
+
+    def __index__(self):
+        return int(self.arr)
+
+    def long(self):
+        return self._w(self.arr.astype(np.int64))
+
+    def int(self):
+        return self._w(self.arr.astype(np.int32))
+
+    def to(self, *a, **k):
+        return self
+
+    def abs(self):
+        return self._w(np.abs(self.arr))
+
+    def clamp(self, min=None, max=None):
+        return self._w(np.clip(self.arr, min, max))
+
+    def flip(self, *dims):
+        d = dims[0] if len(dims) == 1 and isinstance(dims[0], (tuple, list)) else dims
+        return self._w(np.flip(self.arr, axis=tuple(d)))
+
+    def tolist(self):
+        return self.arr.tolist()
+
+    def item(self):
+        return self.arr.item()
+
+    def numpy(self):
+        return self.arr
+
+    def cpu(self):
+        return self
 
 
 class ExtBase:
@@ -313,8 +396,9 @@ class Libs:
             'Size': self._size, 'get_default_dtype': self._get_default_dtype, 'nn': nn, 'autograd': autograd,
             'roll': self._torch_roll, 'flip': self._torch_flip, 'transpose': self._torch_transpose,
             'is_grad_enabled': self._is_grad_enabled, 'abs': self._nonlinear('abs'),
-            'where': self._nonlinear('where'), 'sign': self._nonlinear('sign'), 'exp': self._nonlinear('exp'),
+            'where': self._torch_where, 'sign': self._nonlinear('sign'), 'exp': self._nonlinear('exp'),
             'log': self._nonlinear('log'), 'clamp': self._nonlinear('clamp'), 'pow': self._pow,
+            'arange': self._torch_arange, 'remainder': self._torch_remainder, 'fmod': self._torch_remainder,
             'is_tensor': lambda x: isinstance(x, (DataT, Sym)) and getattr(x, 'lib', 'torch') == 'torch',
             'device': lambda s: Device(str(s)),
         })
@@ -759,6 +843,8 @@ class Libs:
 
     def _torch_cat(self, tensors, dim=0, out=None):
         tensors = list(self.iterate(tensors))
+        if tensors and all(isinstance(t, ConstT) for t in tensors):
+            return ConstT(np.concatenate([t.arr for t in tensors], axis=dim), tensors[0].device)
         if tensors and all(isinstance(t, Sym) for t in tensors):
             try:
                 r = Sym(np.concatenate([t.arr for t in tensors], axis=dim), 'torch', tensors[0].dtype,
@@ -834,6 +920,20 @@ class Libs:
     def _is_grad_enabled(self):
         self.interp.event('grad-mode-read')
         return self.grad_enabled and not self.interp.nograd
+
+    def _torch_arange(self, *a, dtype=None, device=None, **k):
+        return ConstT(np.arange(*[ConstT._v(x) for x in a]), device)
+
+    def _torch_remainder(self, a, b):
+        if isinstance(a, ConstT) or isinstance(b, ConstT):
+            return ConstT(np.mod(ConstT._v(a), ConstT._v(b)))
+        raise AnalysisError('unknown-primitive', 'torch.remainder on data')
+
+    def _torch_where(self, cond, a=None, b=None):
+        if isinstance(cond, ConstT) and not isinstance(a, DataT) and not isinstance(b, DataT):
+            return ConstT(np.where(cond.arr, ConstT._v(a), ConstT._v(b)), cond.device)
+        from . import nonlin
+        return nonlin.pointwise('where', *(x for x in (cond, a, b) if x is not None))
 
     def _torch_roll(self, x, shifts, dims=None):
         if not isinstance(x, DataT) or dims is None:
